@@ -36,6 +36,7 @@ def run(ctx):
     ctx.rule('R20.5', 'token types used inside functions are interned at import (prefix closure)', floor=40)
     ctx.rule('R20.6', 'clear()/default_initialization() rebuild the whole lexer configuration', floor=10)
     ctx.rule('R20.7', 'global-write inventory: no store to module/class-level state reachable from the entry points except R20.1', floor=1)
+    ctx.rule('R20.8', 'closure cells and function attributes created at import (decorator closures) are never written by the functions they are captured in', floor=1)
     T = get_tables(ctx)
     RL.check_singleton_lock(ctx, 'R20.1')
     RL.check_request_path_readonly(ctx, 'R20.2')
@@ -45,6 +46,7 @@ def run(ctx):
     check_interned_types(ctx)
     RL.check_initialisation(ctx, 'R20.6', T)
     check_global_writes(ctx)
+    check_closure_cells(ctx)
     # positive controls for zero-count rules
     controls(ctx)
 
@@ -247,6 +249,135 @@ def check_global_writes(ctx):
                            f'store to class/module-level state `{src(t)}` is the lexer singleton publication under the lock', ok,
                            f'`{src(node)}` in {f.short} writes process-wide state on the request path')
     ctx.info['global_write_sites'] = n
+
+
+MUTATORS = ('append', 'extend', 'insert', 'pop', 'remove', 'clear', 'update', 'setdefault', 'sort', 'reverse', 'add', 'discard',
+            'appendleft', 'popleft', 'popitem', '__setitem__')
+
+
+def _bound_names(f):
+    """names bound in f's own scope (parameters, assignments, loop/with targets, nested defs)"""
+    a = f.node.args
+    out = {x.arg for x in a.posonlyargs + a.args + a.kwonlyargs}
+    for x in (a.vararg, a.kwarg):
+        if x is not None:
+            out.add(x.arg)
+    declared = set()
+    for n in own_nodes(f.node):
+        if isinstance(n, (ast.Nonlocal, ast.Global)):
+            declared |= set(n.names)
+        if isinstance(n, ast.Name) and isinstance(n.ctx, ast.Store):
+            out.add(n.id)
+    out |= set(f.nested)
+    return out - declared
+
+
+def _import_time_functions(repo):
+    """functions invoked while the package is imported: referenced from a decorator expression or called from a
+    module/class-level statement; functions they return are invoked too when the decorator is a factory call."""
+    out = set()
+    for mod in repo.modules.values():
+        def scan(body, cls):
+            for node in body:
+                if isinstance(node, ast.ClassDef):
+                    for d in node.decorator_list:
+                        mark(d, mod)
+                    scan(node.body, node)
+                    continue
+                if isinstance(node, FUNC_NODES):
+                    for d in node.decorator_list:
+                        mark(d, mod)
+                    continue
+                for n in ast.walk(node):
+                    if isinstance(n, ast.Call):
+                        mark(n.func, mod)
+
+        def mark(e, mod):
+            for n in ast.walk(e):
+                if isinstance(n, (ast.Name, ast.Attribute)):
+                    q = None
+                    if isinstance(n, ast.Name):
+                        if n.id in mod.funcs:
+                            q = mod.funcs[n.id].qname
+                        elif n.id in mod.imports and mod.imports[n.id][0] == 'object':
+                            q = f'{mod.imports[n.id][1]}.{mod.imports[n.id][2]}'
+                    elif isinstance(n.value, ast.Name) and n.value.id in mod.imports and mod.imports[n.value.id][0] == 'module':
+                        q = f'{mod.imports[n.value.id][1]}.{n.attr}'
+                    if q in repo.funcs:
+                        out.add(q)
+        scan(mod.tree.body, None)
+    # functions nested in an import-time function and returned by it (decorator factories)
+    changed = True
+    while changed:
+        changed = False
+        for q in list(out):
+            f = repo.funcs[q]
+            for n in own_nodes(f.node):
+                if isinstance(n, ast.Return) and isinstance(n.value, ast.Name) and n.value.id in f.nested:
+                    g = f.nested[n.value.id].qname
+                    if g not in out:
+                        out.add(g)
+                        changed = True
+    return out
+
+
+def check_closure_cells(ctx):
+    """A variable of a function that runs at import (a decorator such as utils.recurse) lives as long as the closure that
+    captures it, i.e. for the whole process: a nested function that rebinds it (`nonlocal`) or mutates it in place, or that
+    stores attributes on a function object, carries state from one call -- and one thread -- into the next."""
+    repo = ctx.repo
+    imp = _import_time_functions(repo)
+    ctx.info['import_time_functions'] = sorted(imp)
+    n_closures = 0
+    for f in repo.funcs.values():
+        if f.parent is None or isinstance(f.node, ast.Lambda):
+            continue
+        # enclosing function scopes, innermost first
+        chain, p = [], f.parent
+        while p is not None:
+            chain.append(p)
+            p = p.parent
+        if not any(c.qname in imp for c in chain):
+            # the enclosing call happens per request: its cells die with the request
+            continue
+        own = _bound_names(f)
+        outer = {}
+        for c in chain:
+            if isinstance(c.node, ast.Lambda):
+                continue
+            for nm in _bound_names(c):
+                outer.setdefault(nm, c)
+        n_closures += 1
+        bad = []
+        nonlocals = set()
+        for n in own_nodes(f.node):
+            if isinstance(n, ast.Nonlocal):
+                nonlocals |= set(n.names)
+        for n in own_nodes(f.node):
+            if isinstance(n, ast.Name) and isinstance(n.ctx, (ast.Store, ast.Del)) and n.id in nonlocals:
+                bad.append((n.lineno, f'rebinds the captured variable `{n.id}` (nonlocal)'))
+            tg = n.targets if isinstance(n, (ast.Assign, ast.Delete)) else [n.target] if isinstance(n, (ast.AugAssign, ast.AnnAssign)) else []
+            for t0 in tg:
+                for t in (t0.elts if isinstance(t0, (ast.Tuple, ast.List)) else [t0]):
+                    root = t
+                    while isinstance(root, (ast.Attribute, ast.Subscript)):
+                        root = root.value
+                    if isinstance(t, (ast.Attribute, ast.Subscript)) and isinstance(root, ast.Name) and root.id not in own and (
+                            root.id in outer or root.id == f.node.name):
+                        bad.append((n.lineno, f'stores into the captured object `{src(t)}`'))
+            if isinstance(n, ast.Call) and isinstance(n.func, ast.Attribute) and n.func.attr in MUTATORS and \
+                    isinstance(n.func.value, ast.Name) and n.func.value.id not in own and n.func.value.id in outer:
+                c = outer[n.func.value.id]
+                vals = _local_values(c, n.func.value.id)
+                if vals and all(isinstance(v, (ast.List, ast.Dict, ast.Set, ast.ListComp, ast.DictComp, ast.SetComp)) or (
+                        isinstance(v, ast.Call) and is_name(v.func, 'list', 'dict', 'set', 'deque', 'defaultdict', 'OrderedDict', 'Counter'))
+                        for v in vals):
+                    bad.append((n.lineno, f'mutates the captured container `{n.func.value.id}` in place (.{n.func.attr})'))
+        ctx.ob('R20.8', f'closure:{f.qname}', f'{f.mod.relpath}:{f.node.lineno}',
+               f'{f.qname} (closure created at import by {chain[0].qname}) only reads its captured variables', not bad,
+               '; '.join(f'line {ln}: {w}' for ln, w in bad) + ': the cell is created once at import and shared by every later call and '
+               'every thread, so a call that raises (or runs concurrently) leaves it in a state the next call observes')
+    ctx.info['import_time_closures'] = n_closures
 
 
 def controls(ctx):
